@@ -183,10 +183,11 @@ def vm_cond(ctx):
 
         def classify(a, b, t):
             for x, y, orient in ((a, b, 'fwd'), (b, a, 'rev')):
-                if is_call(x, 'get', self_adt='VClock') and len(x[2]) == 2:
-                    k, v = versionless(x[2][1]), versionless(y)
+                cg = clock_get_of(x)
+                if cg is not None:
+                    k, v = versionless(cg[1]), versionless(y)
                     if k[0] == 'field' and k[2] == 'actor' and v == ('field', k[1], 'counter'):
-                        ev = elem_value_of(x[2][0])
+                        ev = elem_value_of(cg[0])
                         src = as_item(k[1])
                         if ev and param_path(ev[0]) and src is not None:
                             dsrc = elem_value_of(iter_source(src)[0])
@@ -200,7 +201,8 @@ def vm_cond(ctx):
         # frame: innermost loop around the comparison
         fr = None
         for bb, c in sorted(it.calls.items()):
-            if is_call(c.term, 'get', self_adt='VClock'):
+            a0_ = versionless(c.args[0].val) if c.args else ('top',)
+            if is_call(c.term, 'get', self_adt='VClock') or (is_call(c.term, 'get') and a0_[0] == 'field' and a0_[2] == 'dots'):
                 fr = iteration_frame(it, bb)
         # "may" is judged over one iteration of the loop over the other side's entries (the element comparison may be
         # hoisted out of the dot loop); "must" over one iteration of the dot loop
